@@ -410,7 +410,10 @@ def run(prog: Program, res: Result, tier: str) -> None:
     table = prog.cls(BMOD, "BitsInfo").class_consts.get("default_bitorder")
     if table is None:
         raise AnalysisError("BitsInfo.default_bitorder table not found")
-    lit = ast.literal_eval(table)
+    try:
+        lit = ast.literal_eval(table)
+    except (ValueError, SyntaxError) as exc:
+        raise AnalysisError(f"default_bitorder is not a literal table: {exc}") from exc
     want = {1: "little", 2: "big", 4: "big"}
     bi = prog.cls(BMOD, "BitsInfo")
     if {k: lit.get(k) for k in want} == want:
